@@ -6,18 +6,22 @@ CFG = {
         "Parsley.C12.table_rows_dispatch",
         "Parsley.C12.runToks_insts",
         "Parsley.Content.extract_of_lex",
-        "Parsley.C12.valid_walk_extracts_partial",
-        "Parsley.C12.deviation_rejected_partial",
+        "Parsley.ContentLex.realP_num",
+        "Parsley.ContentLex.litLoop_bal",
+        "Parsley.ContentLex.hexStringP_ok",
+        "Parsley.ContentLex.nameP_ok",
+        "Parsley.ContentLex.operatorP_ok",
+        "Parsley.ContentLex.numOrRefP_num",
+        "Parsley.ContentLex.arrLoopP_els",
+        "Parsley.ContentLex.dictLoopP_ents",
+        "Parsley.ContentLex.csObjP_operand",
+        "Parsley.ContentLex.lexAll_prog",
+        "Parsley.C12.lexer_roundtrip",
+        "Parsley.C12.valid_walk_extracts",
+        "Parsley.C12.deviation_rejected",
         "Parsley.C12.extract_total_on_trees",
     ],
-    "partial": {
-        "Parsley.C12.valid_walk_extracts_partial":
-            "proved for ALL syntax trees under the hypothesis `Lexes d p` (the tokenizer model splits p.render into the tree's tokens); "
-            "missing: the lexer round trip `p.ok -> d >= 1 -> Lexes d p` for spelled numbers, names, literal/hex strings, arrays and "
-            "dictionaries (incl. sufficiency of the object parser's fuel 2*len+2). Non-vacuity instances discharge `Lexes` by evaluation; "
-            "the correspondence run checks it on every generated case (judge: p.ok, p.render = stream, real output = expected p).",
-        "Parsley.C12.deviation_rejected_partial": "same hypothesis `Lexes d p`; same gap.",
-    },
+    "partial": {},
     "gen": ["Operators"],
     "n": {"quick": 1500, "thorough": 60000},
     "exhaustive": {"quick": True, "thorough": True},
@@ -35,7 +39,9 @@ CFG = {
         "Spec/Fig9.lean: transcription of ISO 32000-1 Table 51, Figure 9 (BX/EX permitted at page level and in text objects; d0/d1 nowhere) and Table 109",
         "modelled, not verified: ParseBuffer primitives (peek/exact/parse_allowed_bytes/parse_bytes_until) as list operations on the remaining input; "
         "BTreeMap opinfo as last-match lookup; std::str::from_utf8 as a hand-written validator",
-        "lexer round trip (tree -> bytes -> same tokens) is checked by the correspondence run, not proved (see partial_theorems)",
+        "Spec/Fig9.lean `Prog.ok`/`render`: the class of streams the theorems quantify over (atoms, arrays and dictionaries of atoms - no nested "
+        "arrays/dictionaries, no `#` escapes in names/operators, numbers of at most 18+18 digits without `+`, complete comments); "
+        "streams outside that class are covered by the correspondence run only",
     ],
     "assumptions": [
         "fresh PDFObjContext per content stream with max_depth >= 1, unrestricted ParseBuffer (views: C17)",
@@ -52,8 +58,11 @@ LEVEL = {
             "regenerated from the Rust const on every run (all 73x5 pairs; names outside the table are unknown to both); (2) runToks_insts + "
             "extract_of_lex - for ALL inputs the extractor loop (fuel, white space, loop exits) is a machine over the token sequence, and for ALL "
             "syntax trees that machine returns exactly Fig9.expected (string operands byte for byte, separator tokens, BX/EX counter, operand "
-            "count/kind checks of Tj ' \" TJ) or an error; hence valid_walk_extracts_partial / deviation_rejected_partial for every stream under the "
-            "single hypothesis that the tokenizer re-reads the rendered tree as written (Lexes), which is not proved in general (partial) but is "
-            "checked against the real code on every generated case. Four genuine defects (DESIGN 4 #18 #19 #20 #33) reproduced and repaired by "
+            "count/kind checks of Tj ' \" TJ) or an error; (3) lexer_roundtrip (Lemmas/ContentLex.lean) - for EVERY well-formed syntax tree and every "
+            "max_depth >= 1 the tokenizer model (white space/comments, RealP/IntegerP with their overflow checks, literal and hex strings, names, "
+            "operators, keywords, parse_pdf_obj with the `n g R` look-ahead, the array and dictionary loops with the fuel 2*len+2) splits the "
+            "rendered bytes into exactly the tokens of the tree; hence valid_walk_extracts / deviation_rejected / extract_total_on_trees "
+            "UNCONDITIONALLY for every well-formed stream (no lexing hypothesis; no bound on stream length, operand count or BX depth; number spellings of up to 18+18 digits as Prog.ok admits), and the same streams are run through the real "
+            "code on every generated case. Four genuine defects (DESIGN 4 #18 #19 #20 #33) reproduced and repaired by "
             "patches C12-01..04; the model mirrors the repaired code.",
 }
